@@ -308,6 +308,9 @@ class ULPIRxEventDecoder(Elaboratable):
         self.rx_start        = Signal()
         self.rx_stop         = Signal()
 
+        # Optional input: set while the user of these strobes considers a receive to be in progress.
+        self.receive_in_progress = Signal()
+
 
     def elaborate(self, platform):
         m = Module()
@@ -334,7 +337,9 @@ class ULPIRxEventDecoder(Elaboratable):
             rx_active = self.ulpi.data.i[4]
             with m.If(~self.rx_active & rx_active):
                 m.d.comb += self.rx_start.eq(1)
-            with m.If(self.rx_active & ~rx_active):
+            # (A receive started by the PHY raising DIR together with NXT isn't necessarily announced by an
+            # RxCmd; so also stop one our user says is in progress.)
+            with m.If((self.rx_active | self.receive_in_progress) & ~rx_active):
                 m.d.comb += self.rx_stop.eq(1)
 
         # A receive can also end by the PHY simply releasing the bus, without a final RxCmd. RxActive can't be
@@ -964,6 +969,8 @@ class UTMITranslator(Elaboratable):
         dir_rising_edge = ~past_dir & self.ulpi.dir.i
         dir_based_start = dir_rising_edge & self.ulpi.nxt.i
 
+
+        m.d.comb += rxevent_decoder.receive_in_progress.eq(self.rx_active)
 
         with m.If(~self.ulpi.dir.i | rxevent_decoder.rx_stop):
             # TODO: this should probably also trigger if RxError
